@@ -52,6 +52,8 @@ def main():
             raise core.Infra("no theorems found in " + mod.MODULE)
         core.assert_repo_under_test()
         run = core.Run(pid, a.tier, seed, mod.MODULE, mod.TRUSTED_BASE, mod.ASSUMPTIONS, mod.RULE)
+        if a.tier == "thorough" and not a.replay:
+            run.extra["leanchecker"] = core.leanchecker([mod.MODULE] + [m for m, _ in getattr(mod, "EXTRA_AUDIT", [])])
         if a.replay:
             rc = mod.replay(run, a.replay)
             sys.exit(rc)
